@@ -163,14 +163,12 @@ def parseOpPair (op res : List String) : Option Parsed :=
       let (mech, _) ← parseMechTok m
       let r ← parseNat? rv
       pure ⟨.op (.digestInit (← parseNat? h) mech r), { rv := r }⟩
-  | [opn, _, m, _, _, c], rv :: h :: wk :: k :: out =>
-      if opn == "wrap" then do
+  | ["wrap", _, m, _, _, c], rv :: h :: wk :: k :: out => do
         let r ← parseNat? rv
         let (mech, p) ← parseMechTok m
         let cap ← parseCap c
         let o ← parseOut r out
         pure ⟨.op (.wrap (← parseNat? h) mech p (← parseNat? wk) (← parseNat? k) cap o), outResp o cap⟩
-      else none
   | "unwrap" :: _ :: m :: _ :: _ :: tpl, [rv, h, uk, hk, blob] => do
       let r ← parseNat? rv
       let (mech, p) ← parseMechTok m
